@@ -7,8 +7,10 @@
 //!   harness fcsched <cases-file> <results-file> [--jobs N]   (docs/FORMAT-fc.md)
 //!   harness fccase                       (child mode of fcsched)
 
+mod datastress;
 mod deletestress;
 mod fcsched;
+mod grpcstress;
 mod nsstress;
 mod orderstress;
 mod puresweep;
@@ -31,6 +33,8 @@ fn main() {
         Some("orderstress") => orderstress::main_orderstress(&args[1..]),
         Some("pushstress") => pushstress::main_pushstress(&args[1..]),
         Some("nsstress") => nsstress::main_nsstress(&args[1..]),
+        Some("datastress") => datastress::main_datastress(&args[1..]),
+        Some("grpcstress") => grpcstress::main_grpcstress(&args[1..]),
         Some("topicstress") => topicstress::main_topicstress(&args[1..]),
         Some("deletestress") => deletestress::main_deletestress(&args[1..]),
         _ => {
